@@ -32,10 +32,17 @@ def c_history(c):
     used = W(date=2021.5, latitude=-33.0, longitude=151.0, height=0.1)      # another query first (WMM2020 file)
     if c.p['second'] == 'date':
         used.magnetic_field(lat, lon, h, date=2016.3)
+        c.goal_eq('same-XYZ', _elements(used), _elements(fresh))
     else:
         used.magnetic_field(20.0, 30.0, 0.0, date=2016.3)                 # switch epoch, then query with date=None
         used.magnetic_field(lat, lon, h, date=None)
-    c.goal_eq('same-XYZ', _elements(used), _elements(fresh))
+        # and once more after a date whose day-resolution round trip lands on another tenth of a year
+        used.magnetic_field(20.0, 30.0, 0.0, date=2017.349)
+        used.magnetic_field(lat, lon, h, date=None)
+        again = W(date=2017.349, latitude=10.0, longitude=10.0, height=0.0)
+        again.magnetic_field(lat, lon, h, date=2017.349)
+        c.goal_eq('same-XYZ.2017.349', _elements(used), _elements(again))
+        return
 
 
 @contract('C15', 'constructor=method', cas=False, no_safety=True, feas_timeout_ms=1500, budget_s=1500, max_paths=64,
